@@ -625,17 +625,19 @@ def fill_permutations(rng, jobs):
 
 
 def run_histories(prop, jobs, tier, mcs, extra_rule, gens=None, owners=None):
-    ev_lists = core.pmap(exec_history, jobs)
-    dropped = sum(1 for evs in ev_lists if not evs)
-    events = [e for evs in ev_lists for e in evs]
-    verdicts, vstats = core.validate("Trace_Acl", events)
-    by_tid = {j["tid"]: (j, evs) for j, evs in zip(jobs, ev_lists)}
+    traced = set()
+
+    def count(e):          # number of histories that produced at least one event (the others: seed refused by the library)
+        traced.add(e["tid"])
+        return False
+    hits, vstats, n_events, samples = core.exec_validate(exec_history, jobs, "Trace_Acl", batch=3000, count=count)
+    vstats.pop("counted", None)
+    dropped = len(jobs) - len(traced)
     out = []
-    for v in verdicts:
+    for v, j, evs in hits:
         owner = v["clause"].split(".")[0]
         if not (owner == prop or owner == "machinery" or (owners and owner in owners)):
             continue
-        j, evs = by_tid[v["tid"]]
         ev = next((x for x in evs if x["i"] == v["i"]), None)
         feats = dict(act=ev["act"] if ev else "?", plat=j["plat"], grouped=bool(j.get("group_by")))
         slim = [dict(i=x["i"], act=x["act"], exc=x["exc"], lines=[" ".join(t["s"] for t in lf["line"]) for it in x["obs"]["items"]
@@ -646,13 +648,13 @@ def run_histories(prop, jobs, tier, mcs, extra_rule, gens=None, owners=None):
     cov = dict(
         states=sum(m.get("states", 0) for m in mcs) + sum(g["states"] for g in (gens or [])),
         transitions=sum(m.get("states", 0) for m in mcs), distinct_states=sum(m.get("distinct", 0) for m in mcs),
-        traces_validated_against_impl=len(jobs) - dropped, evaluations=len(events), distinct_nontrivial=len(distinct),
+        traces_validated_against_impl=len(jobs) - dropped, evaluations=n_events, distinct_nontrivial=len(distinct),
         seed_acls_rejected_by_library=dropped,
         rule="one trace = one live Acl object built from text (flat or grouped by remark prefix, numbered or not, with "
              "duplicates, covers, interleaved deny rules, multi-port entries, named address groups with members, notes) "
              "followed by a sequence of public operations, with the full projection after every call; " + extra_rule +
              "; non-trivial = at least one operation; distinct = distinct (platform, lines, operations)",
-        samples=[dict(job=jobs[i], n_events=len(ev_lists[i])) for i in (0, len(jobs) // 2, len(jobs) - 1)],
+        samples=[dict(job=j_, n_events=len(e_)) for j_, e_ in samples],
         model_checking=mcs, generation=gens or [], trace_validation=vstats, exhaustive=False,
         checker_cmd="tlc MC_Acl (P_C19, P_C04, P_C15; deviation run), lemma modules; tlc Trace_Acl (W=32, PMax=65535)",
     )
